@@ -372,6 +372,10 @@ class Gen:
                 self.features.add("typed-global-element" if not t.builtin else "builtin-typed-global-element")
                 return GlobalElement(nm, type=t, file=fidx)
         content = self.make_content(fidx, {nm.snake} if self.cfg.get("avoid_nested_same_name") else set(), allow_empty=False)
+        if r.random() < 0.1 and content.attrs:
+            # an anonymous type that has attributes but no element content
+            content.group = Group("sequence", 1, 1, []) if r.random() < 0.5 else None
+            self.features.add("anonymous-element-attributes-only")
         return GlobalElement(nm, content=content, file=fidx, doc=self.doc())
 
     # ------------------------------------------------------------------ whole set
